@@ -345,9 +345,10 @@ def check_C04(chk):
 ITER_TAIL = "INIT Init\nNEXT Next\nVIEW View\nINVARIANT Partition\nCHECK_DEADLOCK FALSE\n"
 
 
-def gen_iter_histories(chk, maxn, ks="{0, 1, 2}"):
-    path, res = vlib.generate_cases(chk.work, "GenIter_cover", "GenIter", cfg_consts({"MaxN": maxn, "Ks": ks}) + ITER_TAIL, timeout=900)
-    chk.add_tlc(res, "GenIter transition cover of the window machine, item counts 0..%d (Partition invariant checked)" % maxn,
+def gen_iter_histories(chk, maxn, ks="{0, 1, 2}", memory=0):
+    path, res = vlib.generate_cases(chk.work, "GenIter_cover%d" % memory, "GenIter", cfg_consts({"MaxN": maxn, "Ks": ks, "Memory": memory}) + ITER_TAIL, timeout=900)
+    chk.add_tlc(res, ("GenIter cover of every (window, previous operation, call) of the window machine, item counts 0..%d (Partition invariant checked)" if memory else
+                      "GenIter transition cover of the window machine, item counts 0..%d (Partition invariant checked)") % maxn,
                 {"behaviours": len(res.replay_lines)})
     return path
 
@@ -371,7 +372,9 @@ def check_C10(chk):
     stage_mech_oneiter(chk)
     stage_mech_sparseiter(chk)
     nbits = 10 if chk.thorough else 9
-    hist = gen_iter_histories(chk, nbits + 1)
+    hist = gen_iter_histories(chk, nbits + 1, memory=1 if chk.thorough else 0)
+    # every (window, previous operation, call): all item counts in the thorough tier and on the multi-block contents, <= 6 items otherwise
+    hist_mem = hist if chk.thorough else gen_iter_histories(chk, nbits + 1, memory=1)
     contents, res = vlib.generate_cases(chk.work, "GenBV_iter", "GenBV",
                                         cfg_consts({"N": nbits, "Mode": '"bits"', "FamilyLens": "{}", "RLClasses": "{}", "RLMaxRuns": 0, "RLTails": "{}", "SpreadPos": "{}", "SpreadK": 0}) + GEN_TAIL)
     chk.add_tlc(res, "GenBV reference sequences for all contents <= %d bits" % nbits, {"behaviours": len(res.replay_lines)})
@@ -381,6 +384,14 @@ def check_C10(chk):
     out = chk.run_harness(bins["dbg-native"], ["replay", "--kind", "iter", "--cases", hist, "--contents", contents, "--wmcontents", wmc], st)
     if out:
         chk.add_replay(out, st, behaviours=out.get("evaluations", 0))
+    if not chk.thorough:
+        small, ress = vlib.generate_cases(chk.work, "GenBV_iter6", "GenBV",
+                                          cfg_consts({"N": 6, "Mode": '"bits"', "FamilyLens": "{}", "RLClasses": "{}", "RLMaxRuns": 0, "RLTails": "{}", "SpreadPos": "{}", "SpreadK": 0}) + GEN_TAIL)
+        chk.add_tlc(ress, "GenBV reference sequences for all contents <= 6 bits", {"behaviours": len(ress.replay_lines)})
+        st = "replay the (window, previous operation, call) cover on all iterator types x all contents <= 6 bits"
+        out = chk.run_harness(bins["dbg-native"], ["replay", "--kind", "iter", "--cases", hist_mem, "--contents", small, "--wmcontents", wmc], st)
+        if out:
+            chk.add_replay(out, st, behaviours=out.get("evaluations", 0))
     spread, res3 = vlib.generate_cases(chk.work, "GenBV_spread", "GenBV",
                                        cfg_consts({"N": 0, "Mode": '"spread"', "FamilyLens": "{128, 130, 192}" if chk.thorough else "{128, 130}", "RLClasses": "{}", "RLMaxRuns": 0,
                                                    "RLTails": "{}", "SpreadPos": "{0, 1, 63, 64, 65, 126, 127}", "SpreadK": 4 if chk.thorough else 3}) + GEN_TAIL)
@@ -392,8 +403,8 @@ def check_C10(chk):
     blocks, res4 = vlib.generate_cases(chk.work, "GenBV_rlblocks", "GenBV",
                                        cfg_consts({"N": 0, "Mode": '"rlblocks"', "FamilyLens": "{}", "RLClasses": "{}", "RLMaxRuns": 0, "RLTails": "{}", "SpreadPos": "{}", "SpreadK": 0}) + GEN_TAIL)
     chk.add_tlc(res4, "GenBV contents whose run-length encoding spans 2-3 blocks with padding", {"behaviours": len(res4.replay_lines)})
-    st = "replay iterator transition cover on multi-block run-length contents (iterators positioned near block ends)"
-    out = chk.run_harness(bins["dbg-native"], ["replay", "--kind", "iter", "--cases", hist, "--contents", blocks], st)
+    st = "replay the (window, previous operation, call) cover on multi-block run-length contents (iterators positioned near block ends)"
+    out = chk.run_harness(bins["dbg-native"], ["replay", "--kind", "iter", "--cases", hist_mem, "--contents", blocks], st)
     if out:
         chk.add_replay(out, st, behaviours=out.get("evaluations", 0))
     chk.cov["exhaustive"] = True
